@@ -34,6 +34,15 @@ def fixed_histories():
                    [('wsanswer', False)] + [('reply', 'POST', ('ok', []))] * 4)
         out.append([('call', 'connect', ['polling', 'websocket']), ('reply', 'GET', ('ok', [OPENU]))] + sends(1, n) +
                    [('wsanswer', True), ('wsframe', ('pk', ('pongprobe',))), ('adv', 1)])
+    # the upgrade: the peer answers the probe and drops the connection in the same instant (the UPGRADE packet cannot be sent), at every stage;
+    # then the client must be on polling, really: it still polls, posts, answers PINGs, disconnects and reconnects
+    for stage in ([('wsanswer', True), ('wsframeclose', ('pk', ('pongprobe',)))],
+                  [('wsanswer', True), ('wsframeclose', ('pk', ('noop',)))],
+                  [('wsanswer', True), ('wsframe', ('pk', ('pongprobe',))), ('wsframeclose', ('pk', ('msg', 900, 'none')))]):
+        out.append([('call', 'connect', ['polling', 'websocket']), ('reply', 'GET', ('ok', [OPENU]))] + stage +
+                   [('call', 'send', 1, False), ('reply', 'POST', ('ok', [])), ('reply', 'GET', ('ok', [('ping', 1)])), ('reply', 'POST', ('ok', [])),
+                    ('call', 'send', 2, True), ('reply', 'POST', ('ok', [])), ('call', 'disconnect'), ('reply', 'POST', ('ok', [])), ('adv', 1),
+                    ('call', 'connect', ['polling']), ('reply', 'GET', ('ok', [OPEN])), ('call', 'send', 3, False), ('reply', 'POST', ('ok', []))])
     # every malformed OPEN, then a WebSocket connection on the same object
     for k in range(4):
         out.append([('call', 'connect', ['polling']), ('reply', 'GET', ('ok', [('open', False, False, 16, 16 + k)])),
